@@ -289,6 +289,13 @@ func runCase(idx int, args sim.Args, scn scenario, v *sim.Verdict) {
 				w.mu.Lock()
 			}
 			w.mu.Unlock()
+			// the iteration is only over once the goroutine has armed its next wait: if the controller moved
+			// the clock before that, the goroutine would compute a wait <= 0 and run further iterations on
+			// its own, unobserved (seen under load in the thorough tier: three spurious violations)
+			if !clk.WaitPending(func(p sim.Waiter) bool { _, isTTL := ttlOf[p.D]; return !isTTL }, 1, watchdog) {
+				v.Inconclude(fmt.Sprintf("case %d: rollover goroutine did not arm its next wait", idx))
+				return false
+			}
 			rollovers++
 			v.Count("rollovers", 1)
 			// collect the releases performed by this iteration: the hook names them, their goroutines
